@@ -97,6 +97,10 @@ func (buf *EventsBuffer) pushEvent(e *event, incompleteEventsList []*event, rech
 			incompleteEventsList = buf.getIncompleteEventsList()
 		}
 		for _, child := range incompleteEventsList {
+			if child.released {
+				// was handled already (the list is a stale snapshot)
+				continue
+			}
 			for _, parent := range child.event.Parents() {
 				if parent == eHash {
 					buf.pushEvent(child, incompleteEventsList, true)
